@@ -25,6 +25,11 @@ CLAIMS = {
  "C01": ("other", "6.C01", "Partial proof + verified per-input decision. Proved in Lean for ALL n: the executable closure checker closureList enumerates exactly the "
          "inductively defined commutator closure (sound, complete, duplicate-free, never out of fuel), Clo = right-nested closure. The hand model of the whole "
          "classifier (get_subgraphs, queue, pipeline steps I-VII, Morph.counts, name table) is tied to the code by exact comparison of legs/dependents/algebra. "
+         "PROVED for all sizes (Properties/C01Star.lean): the closure of a pure single-leg star is {c+sum S} u {sum S, |S| odd} with 3*2^(k-1) strings, of a path the intervals "
+         "(dim so(m+1)), of a general type-A star 2^(k-1)*dim so(r+3) strings — each equal to the dimension of the name the model classifier reports for those legs "
+         "(C01_star, C01_path, C01_typeA), and through C02_closure_partial the reported dimension equals |Clo generators| for every input whose guarded reduction ends in "
+         "such a star with independent vertices (C01_from_C02_*); the span test of the repaired check_dependency_one_leg is proved correct (C01Star_inSpan); the census->name "
+         "table is tied to the Python by census_tie; the library's own is_algebra comparison is proved sound w.r.t. the invariants (C01Names_sound_classifier). "
          "Per input (n<=5 quick, n<=6 thorough; every collection of <=3 strings on 2 qubits): invariants of the verified closure (size, centre, per block "
          "simple dimension / centraliser / copies) must equal those of the reported name. That the reduction is correct for all inputs is the classification "
          "theorem of arXiv:2408.00081 and is NOT proved.",
